@@ -1037,6 +1037,15 @@ func evalC20GCS(c c20GCS, o *Obs) error {
 	for i := range shared {
 		sharedCopy[i] = append([]byte{}, shared[i]...)
 	}
+	// ... and a long one (hundreds of items, a few members among them): what a library does with a long query -
+	// split it, hand parts to helpers - is its own business as long as it stays free of races
+	var long [][]byte
+	for i := 0; i < 300; i++ {
+		long = append(long, derivedItem(c.D.Seed+11, i))
+		if i%100 == 50 && len(items) > 0 {
+			long = append(long, items[(i*7)%len(items)])
+		}
+	}
 	for g := 0; g < c.G; g++ {
 		g := g
 		got[g] = make([]ans, len(probes))
@@ -1048,6 +1057,11 @@ func evalC20GCS(c c20GCS, o *Obs) error {
 			for k := range probes {
 				i := (k + g) % len(probes)
 				p := probes[i]
+				if k%6 == 0 {
+					f.MatchAny(key, long)
+					f.ZipMatchAny(key, long)
+					f.HashMatchAny(key, long)
+				}
 				f.MatchAny(key, shared)
 				f.ZipMatchAny(key, shared)
 				f.HashMatchAny(key, shared)
